@@ -11,6 +11,9 @@ CONSTANTS
   EraseKeepsBug = FALSE
   PushFrontRetBug = TRUE
   ReleaseNoClear = FALSE
+  LogDupBug = FALSE
+  LogSetShallowBug = FALSE
+  LeakTempBug = FALSE
   MoveAssignInPlaceBug = FALSE
 VIEW IView
 INVARIANTS ReturnsAgree
